@@ -22,16 +22,35 @@ EXTENDS Integers, Sequences, TLC
 CONSTANTS Sources,   \* set of [origin : {"lib", "foreign"}, store : {"simple", "multi"}]
           MaxOps
 
-VARIABLES src, store, derived, rgs, prog, hist
-vars == <<src, store, derived, rgs, prog, hist>>
+VARIABLES src, store, derived, rgs, prog, hist,
+          kv,       \* the user key-value entries of the footer: a SEQUENCE of <<key, value>> (the IDL's list<KeyValue>:
+                    \* another writer may repeat a key or use the empty key)
+          kvhist
+vars == <<src, store, derived, rgs, prog, hist, kv, kvhist>>
+
+(* what a foreign writer left: a repeated key, the empty key twice, one ordinary key, one key the update removes *)
+ForeignKv == << <<"dup", "one">>, <<"solo", "s">>, <<"dup", "two">>, <<"", "e1">>, <<"drop", "x">>, <<"", "e2">> >>
+LibKv == << <<"origin", "lib">>, <<"drop", "x">> >>
+(* update_file_custom_metadata({"solo": "S<n>", "drop": None, "new<n>": "v"}) : named keys are replaced in place or removed, *)
+(* every other entry stays where it is, new keys go to the end                                                       *)
+RECURSIVE Upd(_, _)
+Upd(s, n) == IF s = <<>> THEN <<>>
+             ELSE LET h == Head(s) IN
+                  (IF h[1] = "drop" THEN <<>> ELSE IF h[1] = "solo" THEN << <<"solo", "S" \o n>> >> ELSE <<h>>) \o Upd(Tail(s), n)
+HasKey(s, key) == \E i \in DOMAIN s : s[i][1] = key
+AfterUpdate(s, n) == LET u == Upd(s, n) IN
+                     (IF HasKey(s, "solo") THEN u ELSE Append(u, <<"solo", "S" \o n>>)) \o << <<"new" \o n, "v">> >>
 
 Init == /\ src \in Sources /\ store = src.store /\ derived = FALSE
         /\ rgs = <<3, 3>> /\ prog = <<>> /\ hist = <<>>
+        /\ kv = (IF src.origin = "foreign" /\ src.store = "simple" THEN ForeignKv ELSE LibKv) /\ kvhist = <<>>
 
 Step(op, newstore, newderived, newrgs) ==
   /\ Len(prog) < MaxOps
   /\ prog' = Append(prog, op) /\ store' = newstore /\ derived' = newderived /\ rgs' = newrgs
   /\ hist' = Append(hist, newrgs) /\ UNCHANGED src
+  /\ kv' = (IF op = "kvupdate" THEN AfterUpdate(kv, ToString(Len(prog) + 1)) ELSE kv)
+  /\ kvhist' = Append(kvhist, kv')
 
 (* pf[0:1] : a derived handle; its metadata object is built from the parent's *)
 Slice == Len(rgs) >= 2 /\ Step("slice", store, TRUE, <<Head(rgs)>>)
